@@ -835,6 +835,28 @@ pub fn run_shard(ctx: &mut Ctx) {
             ctx.out.count("concurrent_rounds(4_readers+drainer)", 1);
         }
     }
+    if ctx.prop == "C16" {
+        // walks in which update_state is an ordinary step (no reference model, panics only)
+        let n = if ctx.tier == Tier::Quick { 150 } else { 20_000 };
+        for _ in 0..n {
+            if !ctx.time_left() {
+                break;
+            }
+            let (ws, v) = crate::props::c16walk::walk(r.next());
+            ctx.out.count("walk:walks", 1);
+            ctx.out.count("walk:calls", ws.calls);
+            ctx.out.count("walk:update_state_calls", ws.update_states);
+            ctx.out.count("walk:appends_of_an_id_appended_before", ws.reappended_resident_ids);
+            ctx.out.count("walk:restarts", ws.restarts);
+            ctx.out.count("walk:restarts_refused_with_an_error", ws.restarts_refused);
+            for (k, n) in &ws.kinds {
+                ctx.out.count(&format!("walk:call:{}", k), *n);
+            }
+            if let Some(v) = v {
+                ctx.out.viol(v);
+            }
+        }
+    }
     if ctx.prop == "C06" || ctx.prop == "C16" {
         // a partially ordered vote type (the tuple votes of the main harness types are totally ordered)
         let n = if ctx.tier == Tier::Quick { 60 } else { 3000 };
